@@ -544,7 +544,9 @@ class EventGenerator:
         )
         qname = qname or meta.qname
         nillable = nillable or meta.nillable
-        namespace, _tag = namespaces.split_qname(qname)
+        # Nested models inherit the namespace of this class (as the parser and
+        # XmlContext.build_recursive do), not the one of the element's qname.
+        namespace = meta.namespace
 
         yield XmlWriterEvent.START, qname
 
